@@ -7,14 +7,20 @@ DashMap operation on `cache`) leaves every key that was resident when the sectio
 `g` to be contained in the current key set (= the state the previous section released), then lets the store change
 arbitrarily (other threads), then records the new key set.  The same containment is required when the function returns.
 
-Consequence (not mechanised; two lines): with every section of every operation monotone, a key stored by a call that has
-returned is resident in every later released state, so every later lookup finds it at its read section -- and the lookup
-contract below says a lookup that returns None did not see the key at its read section.  The wrapper contracts (units
+Consequence: with every section of every operation monotone, a key stored by a call that has returned is resident in every
+later released state (lemma_resident_forever over the trace of released states, proved), so every later lookup finds it at
+its read section -- and the lookup contract below says a lookup that returns None did not see the key at its read section.
+What stays informal is only the identification of the real execution with such a trace (each released state is the result
+of one critical section of one of the operations verified here).  The wrapper contracts (units
 wrappers_*) say the body runs only after such a None.  Invalidation and eviction are excluded by the sentence's premise."""
 from extract.rules import R, R4, R5, R1_TYPES
 from contracts.units.engine_common import COMMON
 from contracts.units.global_cache import UTILS_FNS, SCORE_STUBS
 from contracts.units import async_cache as AC
+
+# the shared helpers of utils.rs work on data the caller has already locked (no acquisition inside): they appear with the
+# contracts verified in unit `utils`, so edits inside them are judged there (and by that unit's stand-in), not here
+UTILS_STUBS = [dict(it, stub=True, loops={}, hints=[]) for it in UTILS_FNS]
 
 G = 'cachelito-core/src/global_cache.rs'
 A = 'cachelito-core/src/async_global_cache.rs'
@@ -28,6 +34,23 @@ pub fn acquire<V>(m: &mut HashMap<String, V>, g: &mut Ghost<Set<String>>)
     requires old(g)@.subset_of(old(m)@.dom()),
     ensures final(g)@ == final(m)@.dom(),
 { }
+
+/// the released states of the store, in the order the critical sections ended, each section satisfying the guarantee
+pub open spec fn monotone_trace(t: Seq<Set<String>>) -> bool {
+    forall|i: int| 0 <= i < t.len() - 1 ==> (#[trigger] t[i]).subset_of(t[i + 1])
+}
+/// the step from "every critical section is monotone" to the concurrent sentence of C03: a key resident in one released
+/// state is resident in every later one, so every lookup whose read section comes later sees it
+pub proof fn lemma_resident_forever(t: Seq<Set<String>>, i: int, j: int, k: String)
+    requires monotone_trace(t), 0 <= i <= j < t.len(), t[i].contains(k)
+    ensures t[j].contains(k)
+    decreases j - i
+{
+    if i < j {
+        assert(t[i].subset_of(t[i + 1]));
+        lemma_resident_forever(t, i + 1, j, k);
+    }
+}
 ''')
 
 UNB_G = [('unbounded_configuration', 'old(self).limit is None && old(self).ttl is None && old(self).max_memory is None'),
@@ -60,8 +83,9 @@ def a(name, **kw):
 
 UNIT = dict(
     name='monotone',
+    lemma_props={'lemma_resident_forever': ['C03'], '*': ['C03']},
     prelude=['prelude.rs', 'prelude_float.rs'],
-    items=COMMON + UTILS_FNS + SCORE_STUBS + [AC.SPEC_MIN, GROW_SPEC,
+    items=COMMON + UTILS_STUBS + SCORE_STUBS + [AC.SPEC_MIN, GROW_SPEC,
         dict(kind='struct', file=G, name='GlobalCache', rules=R1_TYPES),
         g('increment_frequency', requires=UNB_G, ensures=[CFGF, LAST_G]),
         g('get', ret='res', requires=UNB_G, ensures=[CFGF, LAST_G, MISS]),
